@@ -848,17 +848,19 @@ structure Spec where
   setsScope : Option Bool
   /-- keys that must already be present (`assert "K" in constants_for_params.keys()`) -/
   needs : List String
-  /-- net effect: key ↦ value, in order of first assignment (a later assignment to the same key wins) -/
+  /-- every assignment `constants_for_params[path] = value`, in execution order (helpers inlined) -/
   writes : List (String × SpecVal)
   deriving DecidableEq, Repr
 
-def netWrites : List (String × SpecVal) → List Stmt → List (String × SpecVal)
-  | acc, [] => acc
-  | _, .newDict :: t => netWrites [] t
-  | acc, .write p v :: t => netWrites (writeKey p (.ex v) acc) t
-  | acc, .writeList p vs :: t => netWrites (writeKey p (.list vs) acc) t
-  | acc, .writeRepeat p v n :: t => netWrites (writeKey p (.rep v n) acc) t
-  | acc, _ :: t => netWrites acc t
+/-- the assignments of a body in execution order (a later assignment to the same path wins; an
+    assignment of `{}` to a path discards what was stored below it) -/
+def assigns : List Stmt → List (String × SpecVal)
+  | [] => []
+  | .newDict :: t => assigns t
+  | .write p v :: t => (p, .ex v) :: assigns t
+  | .writeList p vs :: t => (p, .list vs) :: assigns t
+  | .writeRepeat p v n :: t => (p, .rep v n) :: assigns t
+  | _ :: t => assigns t
 
 def scopeOf : List Stmt → Option Bool
   | [] => none
@@ -885,7 +887,7 @@ def plainStmt : Stmt → Bool
 
 def specOf (i : SetterInfo) : Spec :=
   { name := i.name, params := i.params, family := i.family, scope := scopeOf i.body, setsScope := setsScopeOf i.body,
-    needs := needsOf i.body, writes := netWrites [] i.body }
+    needs := needsOf i.body, writes := assigns i.body }
 
 /-- the table entry of `sp.name` is a plain setter, guards and sets the same flags, and does exactly what `sp` says -/
 def meets (sp : Spec) : Bool :=
